@@ -9,13 +9,6 @@ RULE = ("harness c19: compressed GLWE / GGSW / GGLWE / switching / automorphism 
 ASSUMPTIONS = ["release-mode (wrapping) integer semantics", "DFT-domain products exact inside the backend's magnitude domain (C07)"]
 TRUSTED = ["ChaCha8 (stream_of seed) and rand_distr::Normal are inputs of the model"]
 def classify(record):
-    """open class: decompress_lwe (19004) for an LWE dimension other than 1 (ps[1] != 1) panics on its layout assertion.
-    (`gglwe_to_ggsw_key_compressed.seeds_not_stored` was repaired by 3f87a93.)"""
-    try:
-        code, ps = record.split("#")[:2]
-        p = [int(x, 16) for x in ps.split()]
-        if int(code) == 19004 and p[1] != 1:
-            return "lwe_compressed.decompress_lwe_layout_assert"
-    except Exception:
-        pass
+    """no open class: `gglwe_to_ggsw_key_compressed.seeds_not_stored` was repaired by 3f87a93,
+    `lwe_compressed.decompress_lwe_layout_assert` by 4fb6b93"""
     return None
